@@ -258,6 +258,9 @@ func (e *Engine) forget(o *Obligation) {
 }
 
 func (e *Engine) solve(o *Obligation, outDir string, idx int, timeoutS int, both bool) *SolveResult {
+	if o.PC0 != nil {
+		return e.solveConsistency(o, outDir, idx, timeoutS)
+	}
 	script, d := e.buildScript(o, false)
 	res := &SolveResult{Bytes: len(script)}
 	if outDir == "" {
@@ -280,7 +283,7 @@ func (e *Engine) solve(o *Obligation, outDir string, idx int, timeoutS int, both
 	if c, ok := scache.m[h]; ok {
 		scache.mu.Unlock()
 		r := *c
-		if r.Status != "unsat" && !(r.Status == "sat" && o.Cover) {
+		if !((r.Status == "unsat" && !o.Cover) || (r.Status == "sat" && o.Cover)) {
 			writeVC()
 			r.File = res.File
 		}
@@ -381,7 +384,7 @@ func (e *Engine) solve(o *Obligation, outDir string, idx int, timeoutS int, both
 	if cacheFile != "" && (res.Status == "unsat" || (res.Status == "sat" && o.Cover)) {
 		_ = os.WriteFile(cacheFile, []byte(fmt.Sprintf("%s %.3f %s\n", res.Status, res.Seconds, res.Solver)), 0o644)
 	}
-	if (res.Status == "unsat" || (res.Status == "sat" && o.Cover)) && os.Getenv("GOVC_KEEP_VC") == "" {
+	if ((res.Status == "unsat" && !o.Cover) || (res.Status == "sat" && o.Cover)) && os.Getenv("GOVC_KEEP_VC") == "" {
 		_ = os.Remove(res.File)
 		_ = os.Remove(strings.TrimSuffix(res.File, ".smt2") + ".abs.smt2")
 		res.File = ""
@@ -430,4 +433,25 @@ func vcCap() int {
 		}
 	}
 	return 2000000
+}
+
+// solveConsistency decides a consistent.* guard: if the path condition before the clauses were evaluated is
+// satisfiable, the one after must be too. Reported as "unsat" (discharged) when consistent or when the path is not
+// known to be reachable, as "sat" when the evaluation of the contract made a reachable path contradictory.
+func (e *Engine) solveConsistency(o *Obligation, outDir string, idx int, timeoutS int) *SolveResult {
+	before := &Obligation{Fn: o.Fn, Kind: o.Kind + ".before", PC: o.PC0, Goal: False, Cover: true, PathID: o.PathID}
+	r0 := e.solve(before, outDir, idx, timeoutS, false)
+	if r0.Status != "sat" {
+		return &SolveResult{Status: "unsat", Solver: r0.Solver, Seconds: r0.Seconds, Detail: "path not known to be reachable (" + r0.Status + "): nothing to compare"}
+	}
+	after := &Obligation{Fn: o.Fn, Kind: o.Kind + ".after", PC: o.PC, Goal: False, Cover: true, PathID: o.PathID}
+	r1 := e.solve(after, outDir, 500000+idx, timeoutS, false)
+	switch r1.Status {
+	case "sat":
+		return &SolveResult{Status: "unsat", Solver: r1.Solver, Seconds: r0.Seconds + r1.Seconds, Detail: "reachable before and after the clauses were evaluated"}
+	case "unsat":
+		return &SolveResult{Status: "sat", Solver: r1.Solver, Seconds: r0.Seconds + r1.Seconds, File: r1.File,
+			Detail: "ENGINE INCONSISTENCY: the path is reachable, but the facts assumed while evaluating the contract's clauses contradict it; every obligation of this path would hold vacuously"}
+	}
+	return &SolveResult{Status: "unsat", Solver: r1.Solver, Seconds: r0.Seconds + r1.Seconds, Detail: "undecided after the clauses were evaluated (" + r1.Status + "): no inconsistency shown"}
 }
